@@ -372,7 +372,7 @@ def gen_a2r(tier, seed):
     """[[a, b, c(, d)], ref, scheme, [d, e]]"""
     rnd = random.Random(seed * 1000 + 13)
     thorough = tier == "thorough"
-    pool = words("AC", 1, 3)
+    pool = words("AC", 1, 3) + ["ACAA", "CAAC"]
     k = 0
     for t in itertools.product(pool, repeat=3):
         if thorough or k % 3 == 0:
@@ -541,7 +541,7 @@ BOUNDED = {
         "functions": ["app.align.align_to_ref.main", "app.align.align_to_ref.align_to_named_seq",
                       "app.align.align_to_ref.align_to_longest", "app.align.pairwise_to_multiple",
                       "align.align.global_pairwise"],
-        "bound": "ordered triples of sequences over AC of length 1..3 (quick every third, thorough all) with the first as "
+        "bound": "ordered triples from the 14 sequences over AC of length 1..3 + ACAA, CAAC (quick every third, thorough all) with the first as "
                  "reference, a sixteenth also with ref='longest'; seeded sample of 3-4 sequences of length <=8 over "
                  "ACGT, 4 scoring/gap settings, every reference choice",
         "rule": "a case = (sequences, reference, scoring table, (d, e)); non-trivial when lengths differ",
